@@ -18,13 +18,13 @@ const pver = uint32(70013)
 
 // Event is one logged message or connection event with a rig-wide logical sequence number.
 type Event struct {
-	Seq   int64  `json:"seq"`
-	Node  string `json:"node"`
-	Conn  int    `json:"conn"`
-	Dir   string `json:"dir"` // "in" (service -> node), "out" (node -> service), "conn", "close"
-	Cmd   string `json:"cmd"`
-	Info  string `json:"info,omitempty"`
-	Ms    int64  `json:"ms"` // wall-clock milliseconds since the log was created (diagnosis only, never used by an oracle)
+	Seq  int64  `json:"seq"`
+	Node string `json:"node"`
+	Conn int    `json:"conn"`
+	Dir  string `json:"dir"` // "in" (service -> node), "out" (node -> service), "conn", "close"
+	Cmd  string `json:"cmd"`
+	Info string `json:"info,omitempty"`
+	Ms   int64  `json:"ms"` // wall-clock milliseconds since the log was created (diagnosis only, never used by an oracle)
 }
 
 // GetHeadersSeen is a getheaders message received by a node (for C13).
@@ -92,12 +92,14 @@ type Node struct {
 	height  map[refmodel.Hash]int32 // hash -> height on the best chain (genesis -> 0)
 	Cap     int                     // max headers per reply
 	// scripting knobs
-	DisconnectAtMsg  int  // close the FIRST connection when its n-th message arrives (0 = never)
-	StallAfterMsg    int  // on every connection: stop answering getheaders after the n-th message (0 = never)
-	MaxAccepts       int  // stop accepting after n connections (0 = unlimited)
-	MaxLive          int  // at most n simultaneously open connections; further dials are refused by the rig (0 = unlimited)
-	Silent           bool // never answers getheaders (pure stall)
-	Services         wire.ServiceFlag
+	DisconnectAtMsg int              // close the FIRST connection when its n-th message arrives (0 = never)
+	StallAfterMsg   int              // on every connection: stop answering getheaders after the n-th message (0 = never)
+	MaxAccepts      int              // stop accepting after n connections (0 = unlimited)
+	MaxLive         int              // at most n simultaneously open connections; further dials are refused by the rig (0 = unlimited)
+	Silent          bool             // never answers getheaders (pure stall)
+	PushAfterReply  *wire.MsgHeaders // unsolicited headers message pushed right after the first getheaders answer of every connection
+	PushInfo        string
+	Services        wire.ServiceFlag
 	// state
 	ln       net.Listener
 	conns    []*Conn
@@ -119,6 +121,7 @@ type Conn struct {
 	verackSeen int32
 	versionIn  int32
 	dead       int32
+	pushed     int32
 	peerKnown  int32 // highest height of the node's chain the service is known to have
 	pongs      chan uint64
 	handshake  chan struct{}
@@ -144,7 +147,11 @@ func (n *Node) setChainLocked(chain []refmodel.Hdr) {
 func (n *Node) SetChain(chain []refmodel.Hdr) { n.mu.Lock(); n.setChainLocked(chain); n.mu.Unlock() }
 
 // Chain returns a copy of the best chain.
-func (n *Node) Chain() []refmodel.Hdr { n.mu.Lock(); defer n.mu.Unlock(); return append([]refmodel.Hdr(nil), n.chain...) }
+func (n *Node) Chain() []refmodel.Hdr {
+	n.mu.Lock()
+	defer n.mu.Unlock()
+	return append([]refmodel.Hdr(nil), n.chain...)
+}
 
 // Height is the node's best height.
 func (n *Node) Height() int32 { n.mu.Lock(); defer n.mu.Unlock(); return int32(len(n.chain)) }
@@ -222,7 +229,11 @@ func (n *Node) serve(c net.Conn, dialed bool) *Conn {
 }
 
 // Conns returns all connections ever made.
-func (n *Node) Conns() []*Conn { n.mu.Lock(); defer n.mu.Unlock(); return append([]*Conn(nil), n.conns...) }
+func (n *Node) Conns() []*Conn {
+	n.mu.Lock()
+	defer n.mu.Unlock()
+	return append([]*Conn(nil), n.conns...)
+}
 
 // Live returns the connections that are still open and have completed the handshake.
 func (n *Node) Live() []*Conn {
@@ -429,6 +440,14 @@ func (c *Conn) loop() {
 			}
 			if err := c.answerGetHeaders(m); err != nil {
 				return
+			}
+			n.mu.Lock()
+			push, pinfo := n.PushAfterReply, n.PushInfo
+			n.mu.Unlock()
+			if push != nil && atomic.CompareAndSwapInt32(&c.pushed, 0, 1) {
+				if err := c.write(push, pinfo); err != nil {
+					return
+				}
 			}
 		default:
 			// getaddr, addr, protoconf, inv, headers, … : nothing to do
